@@ -36,7 +36,18 @@
    found    = '-' | stack~name~version~flavor
      dhyp   ... as dedges                     -> ok TAB five 0/1 characters: dworld_ok, version names fit C10, version entry in
                                                  the VRO, no -j line, no line changes the VRO (hyps_text)
-     dlook  EXTRA FLAVORS DB VRO NAME VERS EXPR   one look-up of the walk (the loop over the flavors)  -> ok TAB found *)
+     dlook  EXTRA FLAVORS DB VRO NAME VERS EXPR   one look-up of the walk (the loop over the flavors)  -> ok TAB found
+
+   Sessions on one instance (coq/Model/UsesSeq.v): the database after a list of changes and the world it denotes
+     seqw   XEDGES SDB OPS                    -> ok TAB WORLD TAB current      (world_after; WORLD as above, in the order
+                                                 of the declarations; current = name ':' version joined by ',')
+     seqr   XEDGES SDB EVENTS                 -> answers of run_session joined by '|':  u=consumers / d=entries / err=kind
+   XEDGES   = edge ';' ...  appended to every table (the silent implicit product)
+   SDB      = sdecl '|' ... '@' cur ',' ...   sdecl = name ',' version ',' sline ';' ...   cur = name ':' version
+   sline    = name ':' optstr ':' 0/1         (version text of the line, optional)
+   OPS      = op ';' ...    op = A~name~version | T~name~version | U~name~optstr | X~name~version
+                                 | D~name~version~tag(0/1)~sline+sline...
+   EVENTS   = event ';' ...  event = op | Qu~name~optstr | Qd~name~version~topo(0/1) *)
 let dec_opt (s : Stdlib.String.t) : ascii list option =
   if s = "N" then None else Some (dec_str (Stdlib.String.sub s 1 (Stdlib.String.length s - 1)))
 let enc_opt (o : ascii list option) : Stdlib.String.t =
@@ -158,8 +169,69 @@ let composed (f : Stdlib.String.t array) : Stdlib.String.t =
     show_entries (list_text cfg flavors fx fxp db types implicit ps o fuel top
                     (bool_of_field f.(13)) (bool_of_field f.(14)))
 
+(* ------------------------------------------------------------------ sessions (Model/UsesSeq.v) *)
+let dec_sline (s : Stdlib.String.t) : tline =
+  match Stdlib.String.split_on_char ':' s with
+  | [n; v; o] -> { tl_name = dec_str n; tl_vers = dec_opt v; tl_opt = bool_of_field o }
+  | _ -> failwith "bad sline"
+
+let dec_sdb (s : Stdlib.String.t) : sdb =
+  match Stdlib.String.split_on_char '@' s with
+  | [d; c] ->
+    { sd_decl = Stdlib.List.map (fun p ->
+        match Stdlib.String.split_on_char ',' p with
+        | [n; v; ls] -> ((dec_str n, dec_str v), Stdlib.List.map dec_sline (split_sep ';' ls))
+        | _ -> failwith "bad sdecl") (split_sep '|' d);
+      sd_cur = Stdlib.List.map (fun kv ->
+        match Stdlib.String.split_on_char ':' kv with
+        | [n; v] -> (dec_str n, dec_str v)
+        | _ -> failwith "bad cur") (split_sep ',' c) }
+  | _ -> failwith "bad sdb"
+
+let dec_sop (fs : Stdlib.String.t list) : sop =
+  match fs with
+  | ["A"; n; v] -> SAssign (dec_str n, dec_str v)
+  | ["T"; n; v] -> SDeclareTag (dec_str n, dec_str v)
+  | ["U"; n; v] -> SUnassign (dec_str n, dec_opt v)
+  | ["X"; n; v] -> SUndeclare (dec_str n, dec_str v)
+  | ["D"; n; v; t; ls] -> SDeclare (dec_str n, dec_str v, Stdlib.List.map dec_sline (split_sep '+' ls), bool_of_field t)
+  | _ -> failwith "bad op"
+
+let dec_sevent (s : Stdlib.String.t) : sevent =
+  match Stdlib.String.split_on_char '~' s with
+  | ["Qu"; x; ov] -> SAsk (QUses (dec_str x, dec_opt ov))
+  | ["Qd"; n; v; t] -> SAsk (QDeps (dec_str n, dec_str v, bool_of_field t))
+  | fs -> SChange (dec_sop fs)
+
+let enc_edge (e : edge) : Stdlib.String.t =
+  Stdlib.String.concat ":" [enc_str e.ename; enc_opt e.evers; enc_opt e.eres; field_of_bool e.eopt]
+
+let enc_world (w : ((ascii list * ascii list) * edge list) list) : Stdlib.String.t =
+  Stdlib.String.concat "|" (Stdlib.List.map (fun ((n, v), es) ->
+    enc_str n ^ "," ^ enc_str v ^ "," ^ Stdlib.String.concat ";" (Stdlib.List.map enc_edge es)) w)
+
+let session (f : Stdlib.String.t array) : Stdlib.String.t =
+  let extra = Stdlib.List.map dec_edge (split_sep ';' f.(1)) in
+  let db = dec_sdb f.(2) in
+  match f.(0) with
+  | "seqw" ->
+    let ops = Stdlib.List.map (fun s -> dec_sop (Stdlib.String.split_on_char '~' s)) (split_sep ';' f.(3)) in
+    let db' = db_after db ops in
+    let names = Stdlib.List.sort_uniq compare (Stdlib.List.map (fun ((n, _), _) -> n) db'.sd_decl) in
+    let cur = Stdlib.List.concat_map (fun n ->
+      match current_of db' n with Some v -> [enc_str n ^ ":" ^ enc_str v] | None -> []) names in
+    "ok\t" ^ enc_world (world_after extra db ops) ^ "\t" ^ Stdlib.String.concat "," cur
+  | _ ->
+    let h = Stdlib.List.map dec_sevent (split_sep ';' f.(3)) in
+    Stdlib.String.concat "|" (Stdlib.List.map (fun a ->
+      match a with
+      | AUses (Ok l) -> "u=" ^ enc_consumers l
+      | ADeps (Ok l) -> "d=" ^ enc_entries l
+      | AUses (Err k) | ADeps (Err k) -> "err=" ^ err_name k) (run_session extra db h))
+
 let handle (f : Stdlib.String.t array) : Stdlib.String.t =
   match f.(0) with
+  | "seqw" | "seqr" -> session f
   | "deps" | "depsp" | "depsn" ->
     let w = dec_world f.(1) in
     let top = ((dec_str f.(2), Some (dec_str f.(3))), true) in
